@@ -413,6 +413,40 @@ theorem displacement_refuses (s0 s1 : Sys K) (ref : String) :
     · rfl
     · simp [refBox, h1, h2, h3]
 
+
+/-! ### index dispatch of `System.dvect/dmag` -/
+
+/-- a python int `0 ≤ i < natoms` selects atom `i`; `-natoms ≤ i < 0` selects atom `natoms + i`; anything else
+    (a 0-d value reaches the wrapper) is a TypeError. -/
+theorem select_idx (atoms : List (V3 K)) (i : Int) :
+    (0 ≤ i → (h : i.toNat < atoms.length) → select atoms (.idx i) = .ok [atoms[i.toNat]]) ∧
+    (i < 0 → -(atoms.length : Int) ≤ i → ∀ (h : (i + atoms.length).toNat < atoms.length),
+        select atoms (.idx i) = .ok [atoms[(i + atoms.length).toNat]]) ∧
+    ((atoms.length : Int) ≤ i ∨ i < -(atoms.length : Int) → select atoms (.idx i) = .error "type") := by
+  refine ⟨?_, ?_, ?_⟩
+  · intro h0 h
+    have hi : i < (atoms.length : Int) := by omega
+    simp [select, wrapIndex, h0, hi, List.getElem?_eq_getElem h]
+  · intro hneg hlo h
+    have h1 : ¬ (0 ≤ i ∧ i < (atoms.length : Int)) := by omega
+    simp [select, wrapIndex, h1, hneg, hlo, List.getElem?_eq_getElem h]
+  · intro h
+    have h1 : ¬ (0 ≤ i ∧ i < (atoms.length : Int)) := by omega
+    have h2 : ¬ (i < 0 ∧ -(atoms.length : Int) ≤ i) := by omega
+    simp [select, wrapIndex, h1, h2]
+
+/-- explicit float positions are taken as they are; an int 3-tuple is ONE position (too many indices for the
+    position array); an integer (k,3) array all of whose entries are usable as indices IS an index (the call is
+    then refused with ValueError: a 3-d array reaches the wrapper). -/
+theorem select_positions (atoms : List (V3 K)) :
+    (∀ l, select atoms (.pos l) = .ok l) ∧
+    (∀ a b c : Int, select atoms (.tuple [a, b, c]) = .ok [⟨(a : K), (b : K), (c : K)⟩]) ∧
+    (∀ rows ks, (rows.flatMap fun r => [r.1, r.2.1, r.2.2]).mapM (wrapIndex atoms.length) = some ks →
+        select atoms (.ipos rows) = .error "value") := by
+  refine ⟨fun _ => rfl, fun _ _ _ => rfl, ?_⟩
+  intro rows ks h
+  simp only [select, h]
+
 /-! ### length scale: multiplying cell and points by any `c ≠ 0` multiplies the result by `c` -/
 
 def scaleV (c : K) (a : V3 K) : V3 K := ⟨c * a.x, c * a.y, c * a.z⟩
